@@ -12,6 +12,7 @@ import itertools
 from typing import Any, Dict, List, Tuple
 
 from mc import choices, simctl, world
+from mc.report import guard_harness as _guard
 from mc.report import add_sample, add_violation, count, new_part
 
 LEVEL = "exploration"
@@ -76,6 +77,7 @@ def observe(env) -> Dict[str, Any]:
             try:
                 hv.append(("future", h[1]._address, h[1].value))
             except Exception as exc:
+                _guard(exc)
                 hv.append(("future", h[1]._address, f"raised {type(exc).__name__}"))
         else:
             if h[2] == env["segment"]:
@@ -83,11 +85,12 @@ def observe(env) -> Dict[str, Any]:
     try:
         a0 = list(env["A0"][0:2])
     except Exception as exc:
+        _guard(exc)
         a0 = f"raised {type(exc).__name__}"
     mm = conn.builder._mem_mgr
     return {"gates": list(ex.gate_trace), "arrays": arrays, "handles": hv, "A0": a0,
             "bookkeeping": {"arrays_to_return": len(mm._arrays_to_return), "registers_to_return": len(mm._registers_to_return),
-                            "meas_used": sum(1 for u in mm._used_meas_registers.values() if u),
+                            "meas_used": len(simctl.meas_registers_in_use(mm)),
                             "active_registers": len(mm._active_registers), "pending": len(conn.builder._pending_commands)}}
 
 
@@ -144,6 +147,7 @@ def run_history(history, modes, value, nv: bool, templated: bool, chooser) -> Li
     except simctl.Horizon:
         obs.append("horizon")
     except Exception as exc:
+        _guard(exc)
         obs.append(f"raised {type(exc).__name__}: {str(exc).splitlines()[0][:160] if str(exc) else ''}")
     return obs
 
